@@ -477,6 +477,19 @@ def gen_cases(rng, tier):
         cases.append(_mk([{"conn": 0, "reqs": m}], []))
         cases.append(_mk([{"conn": 2, "reqs": m}, {"conn": 3, "reqs": list(reversed(m))}], [[0, 0, 2], [1, 0, 3], [0, 0, 3], [1, BIG, 0]]))
         cases.append(_mk([{"conn": 1, "reqs": m}, {"conn": 0, "reqs": _auto(2)}], _rand_sched(rng, 2, 12)))
+    # --- the caller re-uses one headers dict object for many requests (sequentially and from several threads)
+    common = [["Accept", "*/*"]]
+    for nreq in (2, 3):
+        c = _mk([{"conn": 0, "reqs": [common] * nreq}], [])
+        c["share"] = True
+        cases.append(c)
+        c = _mk([{"conn": 0, "reqs": [common] * nreq}, {"conn": 1, "reqs": [common, [], common]}], _rand_sched(rng, 2, 10))
+        c["share"] = True
+        cases.append(c)
+        c = _mk([{"conn": 2, "reqs": [common, [[DOC_KEY, "mine"], ["Accept", "*/*"]], common]},
+                 {"conn": 3, "reqs": [[[DOC_KEY, "mine"], ["Accept", "*/*"]], common]}], [[0, 0, 2], [1, 0, 3], [0, BIG, 0], [1, BIG, 0]])
+        c["share"] = True
+        cases.append(c)
     # --- ids disabled (_send_request_ids=False)
     for m in mixes[:3]:
         cases.append(_mk([{"conn": 0, "reqs": m}, {"conn": 1, "reqs": m}], _rand_sched(rng, 2, 8), en=False))
@@ -506,7 +519,7 @@ def kind(case):
     if not case["en"]:
         flav = "disabled"
     elif any(r for t in case["threads"] for r in t["reqs"]):
-        flav = "mixed"
+        flav = "mixed-shared-headers-object" if case.get("share") else "mixed"
     return f"{nth}thr-{flav}"
 
 
@@ -616,6 +629,8 @@ def impl_run(case):
         if real_lock is not None:
             setattr(x, GUARD, S.LockProxy(real_lock, sched))
 
+    shared_hd = {}
+
     def mk(i):
         spec = case["threads"][i]
         conn = conns[spec["conn"]]
@@ -624,6 +639,10 @@ def impl_run(case):
             for j, h in enumerate(spec["reqs"]):
                 m = getattr(conn, METHODS[(i + j) % len(METHODS)])
                 hd = dict((k, v) for k, v in h) if h else None
+                if hd is not None and case.get("share"):
+                    # the caller keeps ONE headers dict per distinct content (a module-level "common
+                    # headers" object) and passes that same object to every request, from every thread
+                    hd = shared_hd.setdefault(json.dumps(h), hd)
                 m(f"/p/{i}/{j}", headers=hd, params={"q": j} if j % 2 else None)
         return body
 
